@@ -468,8 +468,15 @@ def run(ctx):
                 has_index = any(isinstance(x, ast.Attribute) and x.attr == "index" for x in nodes)
                 dups = [x for x in nodes if isinstance(x, ast.Call) and au.method_name(x) in ("duplicated", "drop_duplicates")]
                 by_index = all(isinstance(x.func, ast.Attribute) and au.terminal(x.func.value) == "index" for x in dups)
-                ok = has_col and has_index and by_index
+                # ... and nothing but the flags decides: the list may depend on the mapping only, not on bounds, costs or restrictions
+                deps = sorted({x.attr for x in nodes if isinstance(x, ast.Attribute) and isinstance(x.value, ast.Name) and x.value.id == "self"
+                               and x.attr in ("l", "u", "c", "A", "b", "cType")})
+                ok = has_col and has_index and by_index and not deps
                 why = []
+                if deps:
+                    why.append("the list of boolean variables also depends on self.%s: a flagged variable that is left out is continuous for the solver - "
+                               "fixed by its bounds to a fractional value (a window fixed to the result of a relaxed solve: 0.5) the problem has no "
+                               "feasible point, yet success is reported with the variable at 0.5" % ", self.".join(deps))
                 if not has_col:
                     why.append("the list does not derive from mapping['bool']")
                 if not has_index:
